@@ -116,7 +116,7 @@ fn run_property(id: &str, eng: &Engine, a: &Args) -> (&'static str, Vec<&'static
         "C11" => {
             let n = if q { 200_000 } else { 1_000_000 };
             eng.explore("xorreader-state-machine", scaled(n, a), xor_strategy, check_xor);
-            ("E2 (stateful): generated op lists [SeekStart | ReadExact | ReadU32 | Read] on XorReader<seek_bufread::BufReader<Cursor>> with generated key (none, 1..64 bytes), buffer capacity (1..40000) and file length, against a plain array model; bytes and positions compared after every op. Non-trivial = a backward seek with a multi-byte key.", vec![])
+            ("E2 (stateful): generated op lists [SeekStart | ReadExact | ReadU32 | Read] on XorReader<seek_bufread::BufReader<Cursor>> with generated key (none, 1..64 bytes, and longer ones up to 70 001 bytes: beyond the 32 KiB buffer), buffer capacity (1..40000) and file length, against a plain array model; bytes and positions compared after every op. Non-trivial = a backward seek with a multi-byte key.", vec![])
         }
         "C15" => {
             let n = if q { 100_000 } else { 1_000_000 };
